@@ -20,6 +20,8 @@ SCHEMAS = [
     ("a int not null, s varchar", lambda rng, k: (rng.randint(0, 9), rng.choice([None, "", "x", "hello"]))),
     ("a int primary key, f double, q boolean", lambda rng, k: (k, rng.choice([None, 0.5, -2.0]), rng.choice([None, True, False]))),
     ("a int, d date, m decimal(10,2)", lambda rng, k: (rng.randint(0, 9), rng.choice([None, "D1", "D2"]), rng.choice([None, "M1", "M2"]))),
+    # a non-ASCII identifier: the manifest then holds multi-byte characters (a torn append can end inside one)
+    ('a int primary key, "zähl€r" int', lambda rng, k: (k, rng.choice([None, 0, 1, 2]))),
 ]
 LITS = {"D1": "date '2021-03-04'", "D2": "date '1970-01-01'", "M1": "12.50", "M2": "-0.25"}
 
